@@ -1,5 +1,7 @@
 import LenaModel.Model.C17
+import LenaModel.Model.C17Sess
 import LenaModel.Lemmas.C17
+import LenaModel.Lemmas.C17Sess
 /-! # C17 — property theorems (flow iterators equal their Python reference) -/
 
 namespace Lena.C17
@@ -473,5 +475,215 @@ theorem chunks_are_windows (cs : Nat) (hcs : 1 ≤ cs) (xs : List α) :
 
 example : runningChunkBy 3 [0, 1, 2, 3, 4] = [[0, 1, 2], [1, 2, 3], [2, 3, 4]] := by decide
 example : runningChunkBy 3 [0, 1] = [] := by decide
+
+/-! ### One instance used more than once (`Model/C17Sess`)
+
+The property holds *per call*: "Chain, CountFrom, Reverse, Slice.run, RunningChunkBy equal their Python
+reference" means every run / call of an instance does, whatever was done with the instance before and
+whatever other generators of the same instance are alive. -/
+
+section Sessions
+variable {σ ι γ β : Type}
+
+/-- **Calls of one instance are independent** (generic form).  If creating a generator leaves the
+instance state unchanged, then in every session — any number of runs/calls of the instance, their
+generators advanced in any interleaving — the values generator number `g` has yielded are the first `k`
+values of a generator created by the same call on a *fresh* instance, where `k` is the number of
+`next(g)` calls answered so far and `x` the argument (flow) of the call that created `g`. -/
+theorem session_calls_independent (E : GenElem σ ι γ β) (hE : ∀ c x, (E.spawn c x).2 = c)
+    (c : σ) (ops : List (GenOp ι)) (g : Nat) (x : ι) (hx : (startsOf ops)[g]? = some x) :
+    valuesOf g (sessEvents E { inst := c, gens := [] } ops)
+      = genTake E.next (nextsOf g (sessEvents E { inst := c, gens := [] } ops)) (E.spawn c x).1 := by
+  rw [sess_values E hE ops { inst := c, gens := [] } g]
+  simp [genOf, hx, genTakeO]
+
+/-- a generator that was never created yields nothing -/
+theorem session_no_generator (E : GenElem σ ι γ β) (hE : ∀ c x, (E.spawn c x).2 = c)
+    (c : σ) (ops : List (GenOp ι)) (g : Nat) (hx : (startsOf ops)[g]? = none) :
+    valuesOf g (sessEvents E { inst := c, gens := [] } ops) = [] := by
+  rw [sess_values E hE ops { inst := c, gens := [] } g]
+  simp [genOf, hx, genTakeO]
+
+end Sessions
+
+/-- **`CountFrom.__call__` does not depend on the history**: after any session on `CountFrom(start, step)`
+the instance is as constructed, so the next call returns a counter at `start`. -/
+theorem countfrom_call_fresh (start step : Int) (ops : List (GenOp Unit)) :
+    (sessAfter countElem (countSess start step) ops).inst.call.1 = { cur := start, step := step } := by
+  rw [sessAfter_inst countElem (fun _ _ => rfl)]
+  rfl
+
+/-- **every call of one `CountFrom(start, step)` instance is `itertools.count(start, step)` from its
+beginning**: in any session (the instance called any number of times, the generators advanced in any
+interleaving) generator number `g` has yielded `start, start+step, …` — exactly as many values as `next(g)`
+was called. -/
+theorem countfrom_calls_independent (start step : Int) (ops : List (GenOp Unit)) (g : Nat)
+    (hg : g < (startsOf ops).length) :
+    valuesOf g (sessEvents countElem (countSess start step) ops)
+      = countFrom start step (nextsOf g (sessEvents countElem (countSess start step) ops)) := by
+  have hx : (startsOf ops)[g]? = some () := by
+    rw [List.getElem?_eq_getElem hg]
+  rw [countSess, session_calls_independent countElem (fun _ _ => rfl) _ ops g () hx]
+  exact genTake_count step _ start
+
+/-- a `CountFrom` generator never raises `StopIteration` -/
+theorem countfrom_never_stops (ops : List (GenOp Unit)) :
+    ∀ (s : Sess CountFromInst CountGen) (g : Nat), GenEv.stop g ∉ sessEvents countElem s ops := by
+  induction ops with
+  | nil => intro s g; simp [sessEvents]
+  | cons op ops ih =>
+    intro s g
+    cases op with
+    | start x => simpa only [sessEvents, sessStep] using ih _ g
+    | next i =>
+      cases hgi : s.gens[i]? with
+      | none => simpa only [sessEvents, sessStep, hgi] using ih _ g
+      | some gi =>
+        simp only [sessEvents, sessStep, hgi, countElem, List.mem_cons, reduceCtorEq, false_or]
+        exact ih _ g
+
+example : sessEvents countElem (countSess 0 1) [.start (), .next 0, .next 0, .start (), .next 1, .next 0]
+    = [.value 0 0, .value 0 1, .value 1 0, .value 0 2] := by decide
+
+/-- **`Slice.run` on successive (or simultaneously open) flows**: every run of one `Slice(start, stop,
+step)` instance yields the slice of *its own* flow `xs` — the first `k` values of `xs[start:stop:step]`
+after `k` answered `next` calls, `StopIteration` included (so it stops exactly when the slice is
+exhausted). -/
+theorem slice_runs_independent {α : Type} (start stop step : Option Int) (hs : GoodStep step)
+    (ops : List (GenOp (List α))) (g : Nat) (xs : List α) (hx : (startsOf ops)[g]? = some xs) :
+    valuesOf g (sessEvents sliceElem { inst := mkSlice start stop step, gens := [] } ops)
+      = (pySlice xs start stop ((step.getD 1).toNat)).take
+          (nextsOf g (sessEvents sliceElem { inst := mkSlice start stop step, gens := [] } ops)) := by
+  rw [session_calls_independent sliceElem (fun _ _ => rfl) _ ops g xs hx, sliceElem, genTake_list]
+  simp only [listElem, sliceOut, slice_run_eq_pyslice start stop step hs xs]
+
+/-- the same for `Reverse` -/
+theorem reverse_runs_independent {α : Type} (ops : List (GenOp (List α))) (g : Nat) (xs : List α)
+    (hx : (startsOf ops)[g]? = some xs) :
+    valuesOf g (sessEvents reverseElem { inst := (), gens := [] } ops)
+      = xs.reverse.take (nextsOf g (sessEvents reverseElem { inst := (), gens := [] } ops)) := by
+  rw [session_calls_independent reverseElem (fun _ _ => rfl) _ ops g xs hx, reverseElem, genTake_list]
+  simp only [listElem, reverse_spec]
+
+/-- the same for `RunningChunkBy(cs)`, `cs ≥ 1` -/
+theorem chunks_runs_independent {α : Type} (cs : Nat) (hcs : 1 ≤ cs) (ops : List (GenOp (List α))) (g : Nat)
+    (xs : List α) (hx : (startsOf ops)[g]? = some xs) :
+    valuesOf g (sessEvents chunkElem { inst := cs, gens := [] } ops)
+      = (windows cs xs).take (nextsOf g (sessEvents chunkElem { inst := cs, gens := [] } ops)) := by
+  rw [session_calls_independent chunkElem (fun _ _ => rfl) _ ops g xs hx, chunkElem, genTake_list]
+  simp only [listElem, chunks_are_windows cs hcs]
+
+/-- the same for `Chain(*iterables)` over re-iterable iterables: every call chains all of them -/
+theorem chain_calls_independent {α : Type} (xss : List (List α)) (ops : List (GenOp Unit)) (g : Nat)
+    (hg : g < (startsOf ops).length) :
+    valuesOf g (sessEvents chainElem { inst := xss, gens := [] } ops)
+      = xss.flatten.take (nextsOf g (sessEvents chainElem { inst := xss, gens := [] } ops)) := by
+  have hx : (startsOf ops)[g]? = some () := by
+    rw [List.getElem?_eq_getElem hg]
+  rw [session_calls_independent chainElem (fun _ _ => rfl) _ ops g () hx, chainElem, genTake_list]
+  simp only [listElem, chain_spec]
+
+example : sessEvents sliceElem { inst := mkSlice (some (-3)) none (some 2), gens := [] }
+      [.start [0, 1, 2, 3, 4], .next 0, .start [10, 11, 12], .next 1, .next 0, .next 0, .next 1, .next 1]
+    = [.value 0 2, .value 1 10, .value 0 4, .stop 0, .value 1 12, .stop 1] := by decide
+
+/-! ### one `Slice` object: `run` and `fill_into` -/
+
+theorem mkSliceInst_kind {start stop step : Option Int} {c : SliceInst}
+    (h : mkSliceInst start stop step = some c) : c.kind = mkSlice start stop step := by
+  unfold mkSliceInst at h
+  split at h
+  · cases h
+  · next heq => cases h; exact heq.symm
+  · next heq => cases h; exact heq.symm
+
+theorem SliceInst.after_kind {α : Type} : ∀ (ops : List (SliceOp α)) (c : SliceInst), (c.after ops).kind = c.kind
+  | [], _ => rfl
+  | .run xs :: ops, c => by
+    simp only [SliceInst.after, SliceInst.step]
+    exact SliceInst.after_kind ops c
+  | .fill v :: ops, c => by
+    simp only [SliceInst.after, SliceInst.step]
+    rw [SliceInst.after_kind ops]
+    split <;> rfl
+
+/-- **`Slice.run` does not depend on what was done with the object before** (earlier runs on other
+flows, `fill_into` calls, in any order): it yields `xs[start:stop:step]` of the flow it is given. -/
+theorem slice_run_history_independent {α : Type} (start stop step : Option Int) (hs : GoodStep step)
+    (c : SliceInst) (hc : mkSliceInst start stop step = some c) (ops : List (SliceOp α)) (xs : List α) :
+    ((c.after ops).step (.run xs)).2
+      = .ran (some (.ok (pySlice xs start stop ((step.getD 1).toNat)))) := by
+  simp only [SliceInst.step, SliceInst.after_kind, mkSliceInst_kind hc,
+    slice_run_eq_pyslice start stop step hs xs]
+
+example : mkSliceInst (some 1) (some 4) (some 2) = some ⟨.islice 1 (some 4) 2, fillInit 1⟩ := by decide
+
+/-- the outcomes of the `fill_into` calls of a history -/
+def fillEvs {α : Type} : List (SliceEv α) → List FillOut
+  | [] => []
+  | .fill o :: es => o :: fillEvs es
+  | _ :: es => fillEvs es
+
+/-- the values given to `fill_into` in a history -/
+def fillVals {α : Type} : List (SliceOp α) → List α
+  | [] => []
+  | .fill v :: ops => v :: fillVals ops
+  | .run _ :: ops => fillVals ops
+
+/-- **`fill_into` has state, and only its own**: the outcomes of the `fill_into` calls of any history are
+those of feeding the same values with no `run` in between. -/
+theorem slice_fill_ignores_runs {α : Type} (a : Nat) (b : Option Nat) (s : Nat) :
+    ∀ (ops : List (SliceOp α)) (c : SliceInst), c.kind = .islice a b s →
+      fillEvs (c.events ops) = fillTrace b s c.fill (fillVals ops)
+  | [], _, _ => rfl
+  | .run xs :: ops, c, hk => by
+    simp only [SliceInst.events, SliceInst.step, fillEvs, fillVals]
+    exact slice_fill_ignores_runs a b s ops c hk
+  | .fill v :: ops, c, hk => by
+    simp only [SliceInst.events, SliceInst.step, hk, fillEvs, fillVals, fillTrace]
+    rw [slice_fill_ignores_runs a b s ops _ rfl]
+
+/-- **`LenaStopFill` persists**: once raised, every later `fill_into` raises it again (and fills nothing) -/
+theorem stopfill_persists {α : Type} (stop : Option Nat) (step : Nat) (s : FillState)
+    (h : (fillInto stop step s).2 = .stopFill) :
+    ∀ (xs : List α), fillTrace stop step s xs = List.replicate xs.length .stopFill
+  | [] => rfl
+  | x :: xs => by
+    simp only [fillTrace, List.length_cons, List.replicate_succ, h, fillInto_stop_state stop step s h]
+    rw [stopfill_persists stop step s h xs]
+
+/-- a caller that goes on after `LenaStopFill` fills the same values as one that stops -/
+theorem fillTrace_values {α : Type} (stop : Option Nat) (step : Nat) :
+    ∀ (xs : List α) (s : FillState) (i : Nat),
+      filledOf xs (fillTrace stop step s xs) = (fillAll stop step s i xs).1
+  | [], _, _ => rfl
+  | x :: xs, s, i => by
+    cases ho : (fillInto stop step s).2 with
+    | stopFill =>
+      have h1 := stopfill_persists stop step s ho (x :: xs)
+      have h2 : fillInto stop step s = (s, .stopFill) :=
+        Prod.ext (fillInto_stop_state stop step s ho) ho
+      rw [h1, filledOf_stops]
+      simp only [fillAll, h2]
+    | filled =>
+      have h2 : fillInto stop step s = ((fillInto stop step s).1, .filled) := by rw [← ho]
+      rw [fillAll, h2]
+      simp only [fillTrace, ho, filledOf]
+      rw [fillTrace_values stop step xs _ (i + 1)]
+    | skipped =>
+      have h2 : fillInto stop step s = ((fillInto stop step s).1, .skipped) := by rw [← ho]
+      rw [fillAll, h2]
+      simp only [fillTrace, ho, filledOf]
+      rw [fillTrace_values stop step xs _ (i + 1)]
+
+/-- **`fill_into` fills exactly `xs[start:stop:step]` also when the caller ignores `LenaStopFill`** and
+feeds the whole flow -/
+theorem fill_trace_eq {α : Type} (start : Nat) (stop : Option Nat) (step : Nat) (hs : 1 ≤ step) (xs : List α) :
+    filledOf xs (fillTrace stop step (fillInit start) xs)
+      = pySlice xs (some (start : Int)) (stop.map Int.ofNat) step := by
+  rw [fillTrace_values stop step xs (fillInit start) 0, fill_into_eq start stop step hs xs]
+
+example : fillTrace (some 4) 2 (fillInit 1) [0, 1, 2, 3, 4, 5, 6]
+    = [.skipped, .filled, .skipped, .filled, .stopFill, .stopFill, .stopFill] := by decide
 
 end Lena.C17
